@@ -498,7 +498,8 @@ class MultiCrossBlockRepeat(Block):
             preamble = 0
         lists = cast(List[T], [])
         while start < num_trials - preamble:
-            lists.append(proc(start, end))
+            # the last repetition may be cut short by the end of the sequence
+            lists.append(proc(start, min(end, num_trials)))
             start += step
             end += step
         return lists
